@@ -100,4 +100,12 @@ CHECKS = {
              "TLC validates outputs and exit status (UciTrace.tla).",
         design_ref="DESIGN.md section 5, C16", note=_UCI_NOTE,
         technique="TLA+ protocol spec; TLC-simulated scripts run on the real binary; TLC trace validation"),
+    "C12": dict(
+        text="TimeCtl.tla states the relation a budget must satisfy (FitsClock: <= own clock, strictly below it when any time remains; "
+             "OwnClockOnly: a function of side to move, own time, own increment) without pinning the formula. TLC enumerates "
+             "exhaustively all go commands over a grid of boundary values x token orders x both sides; the hooked handler reports what "
+             "the real parser hands to the search; TLC validates both predicates on every event (TimeTrace.tla).",
+        design_ref="DESIGN.md section 5, C12",
+        note="Trusted: TLC; the capture hook placed right before find_best_move. Exhaustive over the stated grid only.",
+        technique="TLA+ relation spec; TLC-enumerated go commands through the real parser (hook); TLC trace validation"),
 }
